@@ -120,7 +120,11 @@ func runHistory(t *rapid.T, cfg PropCfg, col *Collector) {
 			alive = false
 		}
 	}
-	n := rapid.IntRange(cfg.MinOps, cfg.MaxOps).Draw(t, "n-ops")
+	maxOps := cfg.MaxOps
+	if Tier() == "thorough" {
+		maxOps *= 2 // longer histories in the thorough tier
+	}
+	n := rapid.IntRange(cfg.MinOps, maxOps).Draw(t, "n-ops")
 	for i := 0; i < n && alive; i++ {
 		o := g.Next(t, w, h.Steps[len(h.Steps)-1].Post)
 		alive = exec(o)
